@@ -237,6 +237,12 @@ def handle (line0 : String) : String :=
     let t := sliceOfHex hex
     "raw=" ++ showOut showLoc (strGetRaw t (nat! off)) ++ ";str=" ++ showOut showLoc (strGet t (nat! off))
   | ["utf8", hex] => showBool (validUtf8 (sliceOfHex hex))
+  | ["acc", "versym", v] =>
+    let v := nat! v
+    s!"{VersionIndex.index v},{showBool (VersionIndex.isLocal v)},{showBool (VersionIndex.isGlobal v)},{showBool (VersionIndex.isHidden v)}"
+  | ["acc", "sym", info, other, shndx] =>
+    let s : Symbol := ⟨0, nat! shndx, nat! info, nat! other, 0, 0⟩
+    s!"{showBool s.isUndefined},{s.stSymtype},{s.stBind},{s.stVis}"
   | ["ident", sp, hex] =>
     showOut (fun (r : Bool × Class × Nat × Nat) => s!"{showBool r.1},{showClass r.2.1},{r.2.2.1},{r.2.2.2}")
       (parseIdent (parseSpec sp) (sliceOfHex hex))
